@@ -708,6 +708,7 @@ def extract() -> Dict:
 
     # every write to an attribute called is_encrypted anywhere in pyhap/
     writers = []
+    order: List[Tuple[str, bool, str]] = []
     for f in sorted((REPO / "pyhap").rglob("*.py")):
         try:
             m = ast.parse(f.read_text())
@@ -721,6 +722,9 @@ def extract() -> Dict:
                 if isinstance(ch, (ast.FunctionDef, ast.AsyncFunctionDef)):
                     for v in _flag_writes_shallow(ch, lits):
                         writers.append((f"{rel}:{qual + ch.name}", v))
+                        if v != "False":
+                            ok, why = _flag_set_last(ch)
+                            order.append((f"{rel}:{qual + ch.name}", ok, why))
                     visit(ch, qual + ch.name + ".")
                 elif isinstance(ch, ast.ClassDef):
                     visit(ch, qual + ch.name + ".")
@@ -730,7 +734,33 @@ def extract() -> Dict:
         visit(m, "")
         for v in _flag_writes_toplevel(m, lits):
             writers.append((f"{rel}:<module>", v))
-    return {"routes": routes, "writers": writers}
+    return {"routes": routes, "writers": writers, "order": order}
+
+
+def _flag_set_last(fn) -> Tuple[bool, str]:
+    """In a function that raises the privilege flag: is the assignment a top-level statement of the
+    function with nothing after it that can fail (no call other than logging, no raise / await /
+    subscript load)?  Then the flag is set only when everything else the function does has happened
+    (for `_pair_verify_two`: the M4 response is built and the session key handed over), i.e. the
+    flag and the completed verify are atomic with respect to exceptions."""
+    idx = None
+    for i, st in enumerate(fn.body):
+        tg = st.targets if isinstance(st, ast.Assign) else ([st.target] if isinstance(st, (ast.AnnAssign, ast.AugAssign)) else [])
+        if any(isinstance(t, ast.Attribute) and t.attr == "is_encrypted" for t in tg):
+            v = st.value
+            if not (isinstance(v, ast.Constant) and v.value is False):
+                idx = i
+    if idx is None:
+        return False, "the flag is not assigned by a top-level statement of the function"
+    for st in fn.body[idx + 1:]:
+        if _is_logger_call(st):
+            continue
+        for x in ast.walk(st):
+            if isinstance(x, (ast.Call, ast.Raise, ast.Await, ast.Yield, ast.YieldFrom)) or (
+                isinstance(x, ast.Subscript) and isinstance(x.ctx, ast.Load)
+            ):
+                return False, f"`{_short(st)}` can still fail after the flag is set"
+    return True, "the flag is set last"
 
 
 def _flag_writes_shallow(fn, literals=None) -> List[str]:
@@ -818,6 +848,16 @@ def render(data: Dict) -> str:
     w = data["writers"]
     for i, (site, val) in enumerate(w):
         lines.append(f"  ({_lean_str(site)}, {_lean_str(val)})" + ("," if i + 1 < len(w) else ""))
+    lines += [
+        "]",
+        "",
+        "/-- For every function that raises the flag: is the assignment its last fallible step",
+        "    (top-level statement, nothing after it that can raise)? -/",
+        "def verifiedSetterLast : List (String × Bool) := [",
+    ]
+    o = data.get("order", [])
+    for i, (site, ok, why) in enumerate(o):
+        lines.append(f"  ({_lean_str(site)}, {'true' if ok else 'false'})" + ("," if i + 1 < len(o) else "") + f"  -- {why}")
     lines += ["]", "", "end Hap.Http.Gen", ""]
     return "\n".join(lines)
 
